@@ -35,3 +35,102 @@ def declare(reg):
     reg.properties.setdefault("C15", {}).setdefault("bounded", []).append(
         {"name": "msg_set_to_msg_seq_set-vs-denote", "module": "harness.seqset", "func": "MsgSetToSeqSet"}
     )
+
+    # ---- C10: admission relation -------------------------------------------------
+    reg.specfn("cmd_set", "c: ref:IMAPClientCommand", "set[int]", "ite(is_none(c.msg_set_as_set), empty_set('int'), some(c.msg_set_as_set))")
+    reg.contract(
+        P, "intersect",
+        params={"a": "ref:IMAPClientCommand", "b": "ref:IMAPClientCommand"}, ret="bool",
+        ensures={"exact": "result == exists(lambda x: x in cmd_set(a) and x in cmd_set(b))"},
+        props=["C10"],
+    )
+    reg.specfn("flag_writer", "c: ref:IMAPClientCommand", "bool", "c.command == 'store' or (c.command == 'fetch' and not c.fetch_peek)")
+    reg.specfn("is_conflicting_cmd", "c: str", "bool",
+               "c == 'append' or c == 'check' or c == 'close' or c == 'delete' or c == 'expunge' or c == 'move' or c == 'rename'")
+    reg.specfn("structure_writer", "c: str, has_deleted: bool", "bool",
+               "c == 'append' or c == 'check' or c == 'delete' or c == 'move' or c == 'rename' or ((c == 'close' or c == 'expunge') and has_deleted)")
+    # pairs that must never run concurrently (sufficient for conflict-serialisability given
+    # that STORE's and the FETCH tail's flag updates are single atomic segments; DESIGN C10)
+    reg.specfn(
+        "must_conflict", "n: ref:IMAPClientCommand, t: ref:IMAPClientCommand, has_deleted: bool", "bool",
+        "structure_writer(n.command, has_deleted) or is_conflicting_cmd(t.command) or "
+        "(flag_writer(n) and t.command == 'search') or (n.command == 'search' and flag_writer(t))",
+    )
+    reg.specfn("known_cmd", "c: str", "bool",
+               "is_conflicting_cmd(c) or c == 'copy' or c == 'fetch' or c == 'noop' or c == 'select' or c == 'status' or c == 'examine' or c == 'search' or c == 'store'")
+    HD = "('Deleted' in self.sequences and card(get(self.sequences, 'Deleted')) > 0)"
+    inv = {"safe-so-far": f"forall(lambda j: implies(0 <= j and j < _i, not must_conflict(imap_cmd, self.executing_tasks[j], {HD})))"}
+    reg.contract(
+        P, "Mailbox.would_conflict",
+        params={"self": "ref:Mailbox", "imap_cmd": "ref:IMAPClientCommand"}, ret="bool",
+        ensures={
+            "admitted-is-safe": f"implies(not result, forall(lambda j: implies(0 <= j and j < len(self.executing_tasks), not must_conflict(imap_cmd, self.executing_tasks[j], {HD}))))",
+            "idle-admits": "implies(len(self.executing_tasks) == 0, result == False)",
+            "readers-admitted": "implies((imap_cmd.command == 'noop' or imap_cmd.command == 'select' or imap_cmd.command == 'status' or imap_cmd.command == 'examine') and "
+                                "forall(lambda j: implies(0 <= j and j < len(self.executing_tasks), not is_conflicting_cmd(self.executing_tasks[j].command))), result == False)",
+            "no-deleted-expunge-admitted": f"implies((imap_cmd.command == 'close' or imap_cmd.command == 'expunge') and not {HD} and "
+                                "forall(lambda j: implies(0 <= j and j < len(self.executing_tasks), not is_conflicting_cmd(self.executing_tasks[j].command))), result == False)",
+        },
+        raises={"RuntimeError": "len(self.executing_tasks) > 0 and not known_cmd(imap_cmd.command) and "
+                                "forall(lambda j: implies(0 <= j and j < len(self.executing_tasks), not is_conflicting_cmd(self.executing_tasks[j].command)))"},
+        loops={0: {"invariant": inv}, 1: {"invariant": inv}, 2: {"invariant": inv}, 3: {"invariant": inv}},
+        props=["C10"],
+        ghost={"harness": "harness.conflict:WouldConflict"},
+    )
+    reg.contract("asimap/parse.py", "IMAPClientCommand.qstr", params={"self": "ref:IMAPClientCommand"}, ret="str",
+                 trusted=True, note="pure pretty-printer used only in log/error text")
+    reg.properties.setdefault("C10", {}).setdefault("bounded", []).append(
+        {"name": "would_conflict-vs-must_conflict", "module": "harness.conflict", "func": "WouldConflict"}
+    )
+
+    # ---- C04: flag algebra ------------------------------------------------------
+    SEQ = "defaultdict[str,set[int]]"
+    reg.specfn("mem", f"d: {SEQ}, s: str, k: int", "bool", "s in d and k in get(d, s)", doc="message key k is in sequence s")
+    reg.contract(
+        P, "Mailbox.msg_sequences",
+        params={"self": "ref:Mailbox", "msg_key": "int"}, ret="list[str]",
+        ensures={"exact": "forall(lambda s: (s in result) == mem(self.sequences, s, msg_key), 'str')",
+                 "unchanged": "forall(lambda s, k: mem(self.sequences, s, k) == mem(old(self.sequences), s, k), 'str', 'int')",
+                 "dom-unchanged": "dom(self.sequences) == dom(old(self.sequences))"},
+        modifies=["self.sequences"],
+        loops={0: {"invariant": {
+            "dom": "dom(self.sequences) == dom(old(self.sequences))",
+            "unchanged": "forall(lambda s, k: mem(self.sequences, s, k) == mem(old(self.sequences), s, k), 'str', 'int')",
+            "collected": "forall(lambda s: (s in seqs) == (mem(self.sequences, s, msg_key) and pos(_it, s) < _i), 'str')",
+        }}},
+        locals_={"seqs": "list[str]"},
+        props=["C04", "C14"],
+    )
+    for fn, val in (("_help_add_flag", "True"), ("_help_remove_flag", "False")):
+        a, b = ("unseen", "Seen")
+        reg.contract(
+            P, "Mailbox." + fn,
+            params={"self": "ref:Mailbox", "key": "int", "flag": "str"},
+            ensures={"exact": (
+                "forall(lambda s, k: mem(self.sequences, s, k) == "
+                f"ite(k == key and s == flag, {val}, "
+                f"ite(k == key and flag == 'Seen' and s == 'unseen', not {val}, "
+                f"ite(k == key and flag == 'unseen' and s == 'Seen', not {val}, mem(old(self.sequences), s, k)))), 'str', 'int')"
+            )},
+            modifies=["self.sequences"],
+            props=["C04"],
+            ghost={"harness": "harness.flags:FlagHelpers"},
+        )
+    reg.contract(
+        P, "Mailbox._help_replace_flags",
+        params={"self": "ref:Mailbox", "key": "int", "flags": "list[str]"},
+        ensures={"exact": (
+            "forall(lambda s, k: mem(self.sequences, s, k) == "
+            "ite(k == key, (s in flags) or (s == 'unseen' and 'Seen' not in flags) or (s == 'Recent' and mem(old(self.sequences), 'Recent', key)), "
+            "mem(old(self.sequences), s, k)), 'str', 'int')"
+        )},
+        modifies=["self.sequences"],
+        loops={
+            0: {"invariant": {"added": "forall(lambda s, k: mem(self.sequences, s, k) == "
+                                       "ite(k == key and s in new_msg_seqs and pos(_it, s) < _i, True, mem(lpre(self.sequences), s, k)), 'str', 'int')"}},
+            1: {"invariant": {"removed": "forall(lambda s, k: mem(self.sequences, s, k) == "
+                                         "ite(k == key and s in to_remove and pos(_it, s) < _i, False, mem(lpre(self.sequences), s, k)), 'str', 'int')"}},
+        },
+        props=["C04"],
+        ghost={"harness": "harness.flags:FlagHelpers"},
+    )
